@@ -1079,6 +1079,13 @@ def term_int(t):
         return term_int(t[1])
     if t[0] == 'call' and isinstance(t[1], str) and t[1].split('::')[-1] == 'from' and 'From<bool>' in t[1] and len(t[2]) == 1:
         return term_int(t[2][0])      # usize::from(true) == 1
+    if t[0] == 'call' and isinstance(t[1], str) and t[1].split('::')[-1] == 'len' and len(t[2]) == 1:
+        a = t[2][0]
+        while isinstance(a, tuple) and a and a[0] in ('ref', 'deref', 'cast'):
+            a = a[1]
+        if isinstance(a, tuple) and len(a) == 2 and a[0] == 'array' and isinstance(a[1], tuple):
+            return len(a[1])          # length of an array literal
+        return None
     if t[0] == 'bin':
         a, b = term_int(t[2]), term_int(t[3])
         if a is None or b is None:
